@@ -20,6 +20,9 @@ def run(ctx):
                 'deliver/duplicate/drop/reorder, lossless drain) over 4 configuration variants, every 3rd history with kernel '
                 'refusals at two netlink requests; distinct = distinct schedule; the oracle runs after every operation')
     S.campaign(ctx, res, ORACLES, ctx.scale(120, 1500), ctx.scale(40, 80), fault_hist=3)
+    # an authentic peer that says unusual things (error replies to an IKE_SA rekey, DELETE for foreign SPIs, ...)
+    import rogue
+    rogue.campaign(ctx, res, ctx.scale(12, 200), 50, oracles=ORACLES)
     return res
 
 
